@@ -114,6 +114,14 @@ def run(ctx):
     for bad in ("NaN", "+Inf", "-Inf"):
         add("catchgen", None, hv={"t": "dict", "k": ["a"], "d": [{"t": "num", "s": bad}]}, why=bad)
         add("catchgen", None, hv={"t": "dict", "k": ["a", "b"], "d": [{"t": "num", "s": "1"}, {"t": "list", "i": [{"t": "dict", "k": ["z"], "d": [{"t": "num", "s": bad}]}]}]}, why=bad + "-nested")
+    # a refused generation / failed parse first, then the value: the second result must be what it is alone
+    bads = [{"t": "dict", "k": ["x", "y"], "d": [{"t": "str", "v": "long text before the refused number"}, {"t": "num", "s": "NaN"}]},
+            {"t": "dict", "k": ["p"], "d": [{"t": "list", "i": [{"t": "num", "s": "1"}, {"t": "dict", "k": ["q"], "d": [{"t": "num", "s": "+Inf"}]}]}]},
+            {"t": "list", "i": [{"t": "str", "v": "z"}, {"t": "num", "s": "-Inf"}]}]
+    for i, v in enumerate(rnd.sample(vecs, 300 if ctx.tier == "quick" else 3000)):
+        py, hv = concrete(v["v"])
+        cases.append(dict(id=len(cases), op="genafter", val=hv, bad=bads[i % len(bads)], text=rnd.choice(['{"a":', '{"a":1}}', '[1,2', 'x', '{"a":"\\ud800"}'])))
+        meta.append(("genafter", py, None, "after-refusal"))
     res = common.run_harness(ctx, znh, "json", cases, timeout=2500)
     if len(res) != len(cases):
         raise common.NoVerdict("harness returned %d/%d" % (len(res), len(cases)))
@@ -125,6 +133,23 @@ def run(ctx):
             common.report(ctx, "%s:%s" % (op, kind), what, dict(op=op, value=repr(py)[:400], text=text, result=r, why=why))
         if r["obs"] in ("panic", "timeout", "exit", "harness-error"):
             rep(r["obs"], "%s during %s: %s" % (r["obs"], op, r.get("detail", "")[:300]))
+            continue
+        if op == "genafter":
+            if r["obs"] != "value" or r["val"].get("t") != "list" or len(r["val"]["v"]) != 6:
+                rep("did-not-run", "the sequence refused-generation / failed-parse / generation did not complete: %s %s" % (r["obs"], r.get("msg"))); continue
+            a, b_, txt, c3, txt2, same = r["val"]["v"]
+            if a.get("v") != "ERR" or c3.get("v") != "ERR":
+                rep("refusal", "生成JSON of a value holding a non-finite number did not raise a catchable exception: %s / %s" % (a, c3)); continue
+            for which, tx in (("first", txt), ("second", txt2)):
+                try:
+                    back = strict_loads(tx.get("v"))
+                    if not py_eq(back, py):
+                        rep("after-refusal:structure", "%s generation after a refused one: %r reads back as %r, expected %r" % (which, tx.get("v"), back, py)); break
+                except Exception as e:
+                    rep("after-refusal:invalid-json", "%s generation after a refused one gave %r: %s" % (which, tx.get("v"), e)); break
+            else:
+                if same.get("v") is not True:
+                    rep("after-refusal:roundtrip", "解析JSON(生成JSON(v)) 为 v is %s after a refused generation" % same)
             continue
         if op == "gen":
             if r["obs"] != "value" or r["val"].get("t") != "str":
@@ -176,7 +201,7 @@ def run(ctx):
                     "atoms (9 texts, 5 doubles, 真/假/空) or lists/dictionaries of <=1 atom (17014 values); seeded random values of depth 3 with <=3 members "
                     "(RandomElement, ~5000). For each value: generated text read by Python json (order-preserving, constants rejected), Python-encoded text "
                     "(ascii/non-ascii, compact/spaced/indented) parsed by 解析JSON, composition compared by value and by 为; plus %d single-character "
-                    "corruptions and hand-written malformed documents, and non-finite numbers, which must raise a catchable exception" % counts.get("catchparse", 0),
+                    "corruptions and hand-written malformed documents, and non-finite numbers, which must raise a catchable exception; 300 sequences refused generation / failed parse / generation / refused generation / generation in ONE execution: the texts generated after a refusal are what they are alone" % counts.get("catchparse", 0),
                per_op=counts)
     return cov, ["Python's json module (strict: NaN/Infinity rejected) is the independent codec and the arbiter of well-formedness",
                  "top-level non-object documents and a leading BOM are not demanded either way", "number spelling in generated text is not compared (values are)"]
